@@ -397,6 +397,28 @@ def label_dropping(ctx):
         if after > chiral:
             ctx.violation('label-kept-on-non-stereogenic-centre', '%s: %s -> %s keeps %d labels, only %d centres are stereogenic' % (
                 smi, old, new, after, chiral), {'smiles': smi})
+    # a labelled double bond grows into a cumulene by edits through the public API (bonds next to it replaced by double bonds): its label may
+    # stay only if it sits on the central bond of a stereogenic system, i.e. only if writing and reading the molecule gives it back
+    for smi, turns in [('C/C=C/CNC', [(3, 4), (4, 5)]), ('C/C=C/CC', [(3, 4)]), ('C/C=C/CCC', [(3, 4), (4, 5)]), ('F/C=C/CC(C)C', [(3, 4), (4, 5)]),
+                       ('C/C=C/CC=C', [(3, 4)]), ('C/C=C\\CNC', [(3, 4), (4, 5)]), ('CC/C=C/CCC', [(2, 3), (5, 6)])]:
+        m = smiles(smi)
+        with m:         # one transaction: labels are re-validated once, on the final bonds
+            for a, b in turns:
+                m.delete_bond(a, b)
+                m.add_bond(a, b, 2)
+        ctx.count('edits.label-dropped')
+        ctx.count('edits.double-bond-grown-into-cumulene')
+        ctx.evaluations += 1
+        d = T.stereo_descriptors(m)
+        loose = [k for k in d if k[0].startswith('?')]
+        try:
+            back = T.stereo_descriptors(smiles(str(m)))
+        except Exception as e:
+            ctx.violation('edited-molecule-not-readable/%s' % type(e).__name__, '%s after %s: %s: %r' % (smi, turns, m, e), {'smiles': smi})
+            continue
+        if loose or len(back) != len(d):
+            ctx.violation('label-kept-on-non-stereogenic-centre/terminal-bond-of-a-cumulene', '%s with bonds %s made double -> %s: labels %s, after writing and reading %s'
+                          % (smi, turns, m, sorted(map(str, d)), sorted(map(str, back))), {'smiles': smi})
     # marks on non-stereogenic centres in input text
     for smi in ['C[C@H](C)F', 'C[C@](C)(F)Cl', 'F/C=C(/C)C', 'CC(C)=[C@]=CC', '[C@H]1(C)CCCCC1', 'C[C@H]1CC1', 'C/C=C1/CCCCC1', 'N[C@H](N)O']:
         m = smiles(smi)
